@@ -1948,6 +1948,20 @@ impl<'a> Runner<'a> {
     }
 
     fn finish(&mut self) {
+        // A child polled again and again without any notification means the ready queue is
+        // corrupted (e.g. a node linked twice); draining such a queue on drop may never end. The
+        // run has its verdict: leak the subject rather than hang on its destructor.
+        let corrupt = with(|w| {
+            w.violations.iter().any(|v| {
+                matches!(
+                    v.oracle.as_str(),
+                    "unjustified-poll" | "busy-spin" | "no-fixpoint" | "unbounded-work-in-one-poll" | "too-much-work-in-one-poll" | "polled-after-completion"
+                )
+            })
+        });
+        if !self.dead && corrupt {
+            self.abort("ready queue may be corrupted; subject leaked instead of dropped".to_string());
+        }
         if !self.dead {
             if self.cfg.wakers_first {
                 self.drain_wakers();
@@ -2088,7 +2102,80 @@ pub fn run(cfg: &Config, trace: &[Op]) -> RunResult {
     r
 }
 
+// ---------------------------------------------------------------------------------------------
+// Watchdog: a run that does not come back is stuck inside the crate (a loop that polls nothing,
+// e.g. a corrupted queue being drained). It is reported like a crash, with the run seed.
+
+use std::sync::atomic::{AtomicU64, AtomicUsize, Ordering as AO};
+static WATCH: [(AtomicU64, AtomicU64); 64] = {
+    #[allow(clippy::declare_interior_mutable_const)]
+    const Z: (AtomicU64, AtomicU64) = (AtomicU64::new(0), AtomicU64::new(0));
+    [Z; 64]
+};
+static NEXT_SLOT: AtomicUsize = AtomicUsize::new(0);
+/// what the stuck run had found and was doing, for the watchdog's report
+static NOTES: std::sync::Mutex<Vec<(usize, String)>> = std::sync::Mutex::new(Vec::new());
+pub fn watch_note(note: String) {
+    let slot = SLOT.with(|s| *s);
+    if let Ok(mut n) = NOTES.lock() {
+        n.retain(|(s, _)| *s != slot);
+        n.push((slot, note));
+    }
+}
+static T0: std::sync::OnceLock<std::time::Instant> = std::sync::OnceLock::new();
+thread_local! {
+    static SLOT: usize = NEXT_SLOT.fetch_add(1, AO::Relaxed) % 64;
+}
+fn watch(begin: bool) {
+    let slot = SLOT.with(|s| *s);
+    if begin {
+        let t = T0.get_or_init(std::time::Instant::now).elapsed().as_millis() as u64 + 1;
+        WATCH[slot].1.store(F.with(|f| f.cur_run_seed.get()), AO::Relaxed);
+        WATCH[slot].0.store(t, AO::Relaxed);
+    } else {
+        WATCH[slot].0.store(0, AO::Relaxed);
+    }
+}
+pub fn start_watchdog(limit_ms: u64) {
+    T0.get_or_init(std::time::Instant::now);
+    std::thread::spawn(move || loop {
+        std::thread::sleep(std::time::Duration::from_millis(500));
+        let now = T0.get().unwrap().elapsed().as_millis() as u64 + 1;
+        for (slot, w) in WATCH.iter().enumerate() {
+            let t = w.0.load(AO::Relaxed);
+            if t != 0 && now > t + limit_ms {
+                if let Ok(n) = NOTES.lock() {
+                    for (s, note) in n.iter() {
+                        if *s == slot {
+                            println!("HANG-CONTEXT {}", note);
+                        }
+                    }
+                }
+                println!(
+                    "\nHANG run_seed={} (a call into the crate did not return within {} ms)",
+                    w.1.load(AO::Relaxed),
+                    limit_ms
+                );
+                std::process::exit(4);
+            }
+        }
+    });
+}
+
 fn run_inner(cfg: &Config, trace: &[Op]) -> RunResult {
+    watch(true);
+    watch_note(format!(
+        "subject={} workload={} ops={} (stuck while interpreting the trace, before the final drop)",
+        cfg.subject.name(),
+        cfg.workload,
+        trace.len()
+    ));
+    let r = run_inner2(cfg, trace);
+    watch(false);
+    r
+}
+
+fn run_inner2(cfg: &Config, trace: &[Op]) -> RunResult {
     flags::reset_flags();
     probes::reset();
     let _ = crate::alloc::end_run(true);
@@ -2200,6 +2287,15 @@ fn run_inner(cfg: &Config, trace: &[Op]) -> RunResult {
         }
         with(|w| w.op_index = trace.len() + 1);
     }
+    // if the final drops never return, the watchdog can at least say what this run had found
+    let found: Vec<String> = with(|w| w.violations.iter().take(3).map(|v| format!("{}/{}: {}", v.property, v.oracle, v.detail)).collect());
+    watch_note(format!(
+        "subject={} workload={} ops={} violations before the final drop: {:?}",
+        cfg.subject.name(),
+        cfg.workload,
+        trace.len(),
+        found
+    ));
     r.finish();
     let _ = r.vacant_pops_seen;
     let _ = r.err_toks_seen;
